@@ -65,6 +65,10 @@ def gen_plan(rng, index, tier):
         kind = rng.choice(["prescribed", "prescribed", "uniform", "roundtrip", "roundtrip_uniform", "thermal"])
         if rng.random() < 0.06:
             kind = "lowlevel"
+        elif rng.random() < 0.05:
+            kind = "lowlevel_thermal"
+        elif plenum and rng.random() < 0.04:
+            kind = "redim"
         s = {"op": kind, "asm": rng.randrange(100)}
         if kind in ("prescribed", "roundtrip", "lowlevel"):
             s["sel"] = rng.randrange(2**24)
@@ -72,6 +76,10 @@ def gen_plan(rng, index, tier):
         elif kind in ("uniform", "roundtrip_uniform"):
             s["blocks"] = rng.randrange(2**8)
             s["factors"] = [round(rng.uniform(0.92, 1.1), 4) for _ in range(6)]
+        elif kind == "lowlevel_thermal":
+            s["deltas"] = [rng.choice([50.0, 0.0, -50.0, 25.0]) for _ in range(rng.randint(2, 5))]
+        elif kind == "redim":
+            pass
         else:
             s["temps"] = [rng.choice([0.0, 25.0, 350.0, 400.0, 450.0, 475.0, 500.0]) for _ in range(4)]
             s["npts"] = rng.choice([40, 80])
@@ -222,6 +230,19 @@ class Runner:
             for bi, c in led.solids:
                 if bi in uniform_blocks and not rel(now["mass"][id(c)] / before["mass"][id(c)], 1.0):
                     self.fail("C12.mass", f"step {k} ({st['op']}): uniform growth of block {bi} changed the mass of {c.name}: {before['mass'][id(c)]} -> {now['mass'][id(c)]}", what="uniform", op=st["op"])
+        # who stands on whom, by the documented rule (both solid, identical type, same multiplicity,
+        # overlapping cold inner/outer bounding diameters), against what the changer works with
+        lk_all = self.changer.linked
+        if lk_all is not None and lk_all.a is a:
+            for bi, c in led.solids:
+                if bi == 0 or bi >= led.nblocks - 1:
+                    continue
+                below = [x for bj, x in led.solids if bj == bi - 1]
+                mine = [x for x in below if type(x) is type(c) and x.getDimension("mult") == c.getDimension("mult") and hasattr(x, "getCircleInnerDiameter") and max(x.getCircleInnerDiameter(cold=True), c.getCircleInnerDiameter(cold=True)) < min(x.getBoundingCircleOuterDiameter(cold=True), c.getBoundingCircleOuterDiameter(cold=True))]
+                lk = lk_all.linkedComponents.get(c)
+                low = getattr(lk, "lower", None) if lk is not None else None
+                if len(mine) <= 1 and (low is None) != (not mine) or (low is not None and mine and low not in mine):
+                    self.fail("C12.linkage", f"step {k} ({st['op']}): {c.name} of block {bi} is treated as standing on {getattr(low, 'name', None)} of the block below; by the linkage rule it stands on {[x.name for x in mine] or None} (cold dimensions as they are now)", what="rule", op=st["op"])
         # axially linked components stay stacked bottom-on-top
         linked = self.changer.linked
         if linked is not None and linked.a is a:
@@ -335,6 +356,39 @@ class Runner:
             self.probe("lowlevel_expansion_after_refusal")
             self.sig.append((op, len(comps2)))
             return True
+        if op == "redim":
+            # the plenum's cladding gets other cold dimensions (it no longer overlaps the cladding below);
+            # the expansions that follow use the same changer object
+            for b in a:
+                cl, gp = b.getComponentByName("clad"), b.getComponentByName("gap")
+                if gp is not None and cl is not None:
+                    cl.setDimension("od", 1.35, cold=True)
+                    cl.setDimension("id", 1.22, cold=True)
+                    self.probe("plenum_clad_redimensioned")
+                    self.sig.append((op, 1))
+                    return True
+            return False
+        if op == "lowlevel_thermal":
+            # the changer's building blocks for thermal steps: one ExpansionData, several temperature
+            # updates (some of them re-apply the temperature a component already has)
+            ch.setAssembly(a, setFuel=True)
+            for dT in st["deltas"]:
+                blks = list(a)
+                was = []
+                for b in blks[:-1]:
+                    tn = b.p.axialExpTargetComponent
+                    t = b.getComponentByName(tn) if tn else None
+                    was.append((t, None if t is None else float(t.temperatureInC), float(b.getHeight())))
+                mid = led.state()
+                for _, c in led.solids:
+                    ch.expansionData.updateComponentTemp(c, float(c.temperatureInC) + dT)
+                ch.expansionData.computeThermalExpansionFactors()
+                ch.axiallyExpandAssembly()
+                self.check(k, st, a, mid)
+                self.thermal_growth(k, a, was)
+            self.probe("lowlevel_thermal_steps")
+            self.sig.append((op, len(st["deltas"])))
+            return True
         if op == "overgrow":
             comps = [c for bi, c in led.solids if bi < led.nblocks - 1]
             ch.performPrescribedAxialExpansion(a, comps, [st["factor"]] * len(comps), setFuel=True)
@@ -359,9 +413,19 @@ class Runner:
                 was.append((t, None if t is None else float(t.temperatureInC), float(b.getHeight())))
             ch.performThermalAxialExpansion(a, grid, field, setFuel=True)
             self.check(k, st, a, before)
-            # the boundary follows the target: where the target stands on the block below's top (bottom
-            # block, or nothing / that block's own target underneath), the block grows by the target
-            # material's linear expansion from its previous to its new temperature
+            self.thermal_growth(k, a, was)
+            self.probe("thermal")
+            self.sig.append((op, tuple(temps)))
+            return True
+        raise RuntimeError(op)
+
+    def thermal_growth(self, k, a, was):
+        """The boundary follows the target: where the target stands on the block below's top (bottom
+        block, or nothing / that block's own target underneath), the block grows by the target
+        material's linear expansion from its previous to its new temperature."""
+        ch = self.changer
+        blks = list(a)
+        if True:
             for bi, (t, T0, h0) in enumerate(was):
                 if t is None or blks[bi].p.axialExpTargetComponent != t.name:
                     continue
@@ -376,10 +440,6 @@ class Runner:
                 if abs(got - want) > 1e-9 * max(1.0, want):
                     self.fail("C12.target", f"step {k} (thermal): block {bi} follows {t.name} ({type(m).__name__}), which went from {T0} C to {T1} C: height {h0} -> {got}, the material's expansion gives {want}", what="thermal-growth", op="thermal")
                 self.probe("thermal_growth_checked")
-            self.probe("thermal")
-            self.sig.append((op, tuple(temps)))
-            return True
-        raise RuntimeError(op)
 
     def after_refusal(self, k, st):
         """A refused expansion must leave the assembly as it was (or at least a valid assembly)."""
